@@ -37,7 +37,7 @@ def clf_zoo():
         "SlidingWindow-PWC": dict(mk=lambda **k: SlidingWindowClassifier(ParzenWindowClassifier(metric_dict={"gamma": 0.7}, **k),
                                                                          window_size=6, **k), self_proba=True, window=True, c12=False),
         # multi-annotator classifiers: the label vector is given by two annotators (second one with additional gaps)
-        "ALR": dict(mk=lambda **k: AnnotatorLogisticRegression(n_annotators=2, **k), self_proba=True, multi=True, c12=False, only=("C11", "C13")),
+        "ALR": dict(mk=lambda **k: AnnotatorLogisticRegression(n_annotators=2, **k), self_proba=True, multi=True, only=("C11", "C12", "C13")),
         "AnnotEnsemble-soft": dict(mk=lambda **k: AnnotatorEnsembleClassifier(
             estimators=[("a", ParzenWindowClassifier(metric_dict={"gamma": 0.7}, **{q: v for q, v in k.items() if q != "cost_matrix"})),
                         ("b", ParzenWindowClassifier(metric_dict={"gamma": 0.7}, **{q: v for q, v in k.items() if q != "cost_matrix"}))],
@@ -125,7 +125,7 @@ def ml_for(classes):
 
 
 def fit(m, X, y, w):
-    if type(m).__name__ in ("AnnotatorLogisticRegression", "AnnotatorEnsembleClassifier"):
+    if type(m).__name__ in ("AnnotatorLogisticRegression", "AnnotatorEnsembleClassifier") and np.ndim(y) == 1:
         y = np.asarray(y)
         if y.dtype.kind in "US":
             y = y.astype("U8")                         # wide enough for the sentinel: no silent truncation in the harness
@@ -285,12 +285,24 @@ def run_c12(case, fail):
     y2 = y.copy()
     y2[miss] = ml
     w = (rs.rand(n) + 0.1) if use_w else None
+    if not case.get("reg") and z.get("multi"):
+        # two annotators: the second one leaves further gaps; a sample is unlabeled if no annotator labeled it
+        y3 = y2.copy()
+        y3[(rs.rand(n) < 0.3) & ~miss] = ml
+        y3[np.where(~miss)[0][0]] = y2[np.where(~miss)[0][0]]
+        y2 = np.column_stack([y2, y3])
+        w = None if w is None else np.column_stack([w, rs.rand(n) + 0.1])
     Xq = rs.randn(5, 2).round(2)
     try:
-        a = fit(mk(), X, y2, w)
         b = fit(mk(), X[~miss], y2[~miss], None if w is None else w[~miss])
-        pa, pb = pred(a, Xq), pred(b, Xq)
+        pb = pred(b, Xq)
     except Exception as e:
+        return          # the labeled part alone is not an admissible training set for this model
+    try:
+        a = fit(mk(), X, y2, w)
+        pa = pred(a, Xq)
+    except Exception as e:
+        fail("C12.fit_raises_only_with_unlabeled_samples", f"{type(e).__name__}: {str(e)[:120]} (the same model fits the labeled samples alone)")
         return
     if w is not None:
         try:
@@ -304,7 +316,7 @@ def run_c12(case, fail):
         fail("C12.unlabeled_rows_change_the_model", f"max |d| = {np.nanmax(np.abs(np.asarray(pa, dtype=float) - np.asarray(pb, dtype=float))):.3g}")
     if w is not None:
         w3 = w.copy()
-        w3[miss] = rs.rand(int(miss.sum())) * 100
+        w3[miss] = rs.rand(*((int(miss.sum()), 2) if np.ndim(w3) == 2 else (int(miss.sum()),))) * 100
         w_before = w3.copy()
         try:
             c = fit(mk(), X, y2, w3)
@@ -317,8 +329,9 @@ def run_c12(case, fail):
     # revealing the same labels in a different order / moving unlabeled rows around
     extra = rs.randn(3, 2).round(2)
     X4 = np.vstack([extra, X])
-    y4 = np.concatenate([np.full(3, ml), y2])
-    w4 = None if w is None else np.concatenate([rs.rand(3) + 0.1, w])
+    two_d = np.ndim(y2) == 2
+    y4 = np.concatenate([np.full((3, 2) if two_d else 3, ml), y2])
+    w4 = None if w is None else np.concatenate([rs.rand(3, 2) + 0.1 if two_d else rs.rand(3) + 0.1, w])
     try:
         d = fit(mk(), X4, y4, w4)
         if not np.allclose(pred(d, Xq), pa, atol=1e-8, equal_nan=True):
@@ -326,7 +339,7 @@ def run_c12(case, fail):
     except Exception:
         pass
     # label reveal history with a shared weight array (fit - reveal - fit)
-    if w is not None:
+    if w is not None and not two_d:
         ws = w.copy()
         yh = y.copy()
         yh[:] = ml
